@@ -30,7 +30,11 @@ EXPLANATION = (
     "kinds that can carry a leak action are dispatched as nodes by _read_control_line, every relation / attribute / token the "
     "serialiser of a simple control emits is consumed by the re-reader, units are SI; (R-C13-4) every options class accepts exactly its "
     "own __dict__ keys as constructor keywords and stores each under its own name; (R-C13-5) every string an enum-valued key is emitted "
-    "as is accepted by the setter / add_* conversion it lands in. Decides these structural agreements, not value equality of models.")
+    "as is accepted by the setter / add_* conversion it lands in. Decides these structural agreements, not value equality of models. "
+    "The serialiser-side facts are obtained by evaluation, not by matching source shapes: the generic to_dict is evaluated per attribute "
+    "name (which names become keys), explicit to_dict methods and the control __str__ methods are executed path by path to the dictionaries / "
+    "string templates they return (format, %, f-string and concatenation are one thing), Comparison.text, the mixing_model setter and the "
+    "node/link dispatch of _read_control_line are evaluated on each concrete input.")
 RULE_TEXT = ("one instance = one (class, key) pair, one control-text token, one options parameter or one enum member; distinct = distinct "
              "constructs")
 ASSUMPTIONS = [
@@ -656,14 +660,15 @@ class TemplateExec(object):
 
     def subst(self, n, env):
         """source text of n with every local replaced by its (symbolic) definition."""
-        ex = self
-
         class T(ast.NodeTransformer):
             def visit_Name(self, m):
                 if isinstance(m.ctx, ast.Load) and m.id in env:
                     v = env[m.id]
                     if isinstance(v, Sym):
-                        return ast.parse(v.text, mode="eval").body
+                        try:
+                            return ast.parse(v.text, mode="eval").body
+                        except SyntaxError:
+                            return m
                     if isinstance(v, (str, int, float, bool)) or v is None:
                         return ast.Constant(value=v)
                     if isinstance(v, Tmpl) and all(isinstance(x, str) for x in v.segs):
